@@ -5,7 +5,7 @@
 # passes without it.  Results are appended to /tmp/seeded/confirm.log.
 BASE=43edbb9
 WT=/tmp/wt/confirm
-export CARGO_NET_OFFLINE=true HOME=/tmp/h RUST_BACKTRACE=0
+export CARGO_NET_OFFLINE=true RUST_BACKTRACE=0
 if [ ! -d $WT ]; then git -C /repo worktree add -q --detach $WT $BASE || exit 2; fi
 while [ $# -ge 2 ]; do
   id=$1; n=$2; shift 2
